@@ -241,7 +241,7 @@ fn is_html_meta(b: u8) -> bool {
 }
 
 #[cfg(feature = "json")]
-// @verif props=C16 tier=quick cap=900 group=json fns=filters::tojson stubs=serialize_json->arbitrary_text
+// @verif props=C16 tier=experimental cap=900 group=json fns=filters::tojson stubs=serialize_json->arbitrary_text
 /// For EVERY serializer output of up to 2 ASCII bytes: the value `tojson` returns is marked safe, contains none
 /// of the characters < > & ', and is the serializer's text with exactly those four characters replaced by
 /// their six-byte \u00XX escapes (every other byte unchanged, in order).
